@@ -161,7 +161,7 @@ Section Combinators.
     | [] => (MVal VNil, st)
     | (c, b) :: r =>
         match ev c st with
-        | (MVal v, st1) => if is_nil v then m_cond r st1 else m_seq never b v st1   (* a clause without forms returns the test value (0170ebc) *)
+        | (MVal v, st1) => if is_nil (prim v) then m_cond r st1 else m_seq never b (prim v) st1   (* the first value of the test decides and is what a clause without forms returns (0170ebc, repo_fixes/C01-19) *)
         | (o, st1) => (o, st1)
         end
     end.
@@ -245,14 +245,13 @@ Section M.
           | (inr vs, st1) => (MVal (mk_list vs), st1)
           | (inl o, st1) => (o, st1)
           end
-      | Progn body =>                       (* progn.go: "result = args[len(args)-1]" on evaluated arguments *)
-          match m_args (ev sc tb) body [] st with
-          | (inr vs, st1) => (MVal (last_val vs), st1)
-          | (inl o, st1) => (o, st1)
-          end
+      | Progn body =>                       (* progn.go (after repo_fixes/C01-10): "for i := range args { result = EvalArg(..) }":
+                                               every form is evaluated, markers of forms that are not the last are dropped,
+                                               the last object is returned as it is (every value) *)
+          m_seq (ev sc tb) never body VNil st
       | When c body =>
           match ev sc tb c st with
-          | (MVal v, st1) => if is_nil v then (MVal VNil, st1) else m_seq (ev sc tb) never body VNil st1
+          | (MVal v, st1) => if is_nil (prim v) then (MVal VNil, st1) else m_seq (ev sc tb) never body VNil st1   (* when.go tests firstValue(..) since repo_fixes/C01-19 *)
           | (o, st1) => (o, st1)
           end
       | Cond cs => m_cond (ev sc tb) cs st
